@@ -105,21 +105,61 @@ class Translator:
     def find_record_decl(self, spelling):
         base, args = template_parts(spelling)
         short = base.split('::')[-1]
+        incomplete = None
         for n in self.db.byid.values():
-            if n['kind'] not in ('CXXRecordDecl', 'ClassTemplateSpecializationDecl') or n.get('name') != short \
-                    or not n.get('completeDefinition'):
+            if n['kind'] not in ('CXXRecordDecl', 'ClassTemplateSpecializationDecl') or n.get('name') != short:
                 continue
             if args is not None:
                 if n['kind'] != 'ClassTemplateSpecializationDecl':
                     continue
-                targs = [re.sub(r'\s+', '', self._targ(k)) for k in n.get('inner', []) if k.get('kind') == 'TemplateArgument']
-                want = [re.sub(r'\s+', '', strip_cv(a)) for a in args]
-                want = [re.sub(r'[uUlL]+$', '', w) if w[:1].isdigit() else w for w in want]
-                if want != targs[:len(want)]:
-                    continue
-            elif n['kind'] != 'CXXRecordDecl':
+                if n.get('completeDefinition'):
+                    targs = [re.sub(r'\s+', '', self._targ(k)) for k in n.get('inner', []) if k.get('kind') == 'TemplateArgument']
+                    want = [re.sub(r'\s+', '', strip_cv(a)) for a in args]
+                    want = [re.sub(r'[uUlL]+$', '', w) if w[:1].isdigit() else w for w in want]
+                    if want != targs[:len(want)]:
+                        continue
+                    return n
+                incomplete = n
                 continue
+            elif n['kind'] != 'CXXRecordDecl' or not n.get('completeDefinition'):
+                continue
+            if n.get('_parent', {}) and (n['_parent'] or {}).get('kind') == 'ClassTemplateDecl':
+                continue        # the pattern of a template is not a type
             return n
+        if args is not None:
+            return self.instantiate_pattern(short, args)
+        return None
+
+    def instantiate_pattern(self, short, args):
+        """implicit instantiation (clang dumps no body for it): the template pattern's fields with the template
+        type parameters replaced by the arguments"""
+        for n in self.db.byid.values():
+            if n['kind'] != 'ClassTemplateDecl' or n.get('name') != short:
+                continue
+            pat = [k for k in n.get('inner', []) if k.get('kind') == 'CXXRecordDecl' and k.get('completeDefinition')]
+            params = [k for k in n.get('inner', []) if k.get('kind') in ('TemplateTypeParmDecl', 'NonTypeTemplateParmDecl')]
+            if not pat or len(params) < len(args):
+                continue
+            sub = {p.get('name'): a for p, a in zip(params, args) if p.get('name')}
+            def st(t):
+                for k, v in sub.items():
+                    t = re.sub(r'\b%s\b' % re.escape(k), v, t)
+                return t
+            inner = [{'kind': 'TemplateArgument', 'type': {'qualType': a}} for a in args]
+            for k in pat[0].get('inner', []):
+                if k.get('kind') == 'FieldDecl':
+                    f = dict(k)
+                    f['type'] = {'qualType': st(k['type']['qualType'])}
+                    inner.append(f)
+                elif k.get('kind') in ('TypedefDecl', 'TypeAliasDecl'):
+                    f = dict(k)
+                    f['type'] = {'qualType': st(k['type'].get('qualType', ''))}
+                    inner.append(f)
+            if pat[0].get('bases'):
+                raise ExtractError('template pattern with base classes: ' + short)
+            syn = {'id': 'syn:%s<%s>' % (short, ','.join(args)), 'kind': 'ClassTemplateSpecializationDecl', 'name': short,
+                   'completeDefinition': True, 'inner': inner, '_parent': n}
+            return syn
         return None
 
     def resolve_typedef(self, spelling):
@@ -911,7 +951,7 @@ class Translator:
                 if name == 'clear':
                     return 'VEC_CLEAR(%s)' % o
             if fam in ('std::optional', 'optional'):
-                if name == 'has_value':
+                if name in ('has_value', 'operator bool'):
                     return '(%shas)' % self._arrow(o)
                 if name == 'value':
                     return 'OPT_VALUE_CHECKED(%s)' % o
@@ -1250,9 +1290,10 @@ class Translator:
                 self.out('%s %s = %s;' % (base, name, self.e(init[-1])))
                 self.propagate()
                 return
-            if base in SCALAR_C:
-                # reference to a scalar lvalue: translated by substitution of the referent expression
-                # (pointers into arrays of mathematical reals are not supported by CBMC)
+            if True:
+                # reference to an lvalue: translated by substitution of the referent expression (CBMC supports
+                # neither pointers into arrays of mathematical reals nor pointers to members that follow an
+                # unbounded array); the referent must be a stable access path
                 self.check_stable(init[-1], v)
                 self.alias[v['id']] = '(' + self.e(init[-1]) + ')'
                 self.cur.dropped.append(('reference-local %s substituted by its referent' % v['name'], self._line(v)))
